@@ -18,7 +18,7 @@ pub fn get() -> FunctionDefinitions {
                 if let Some(JsonValue::Number(time)) = self.0.apply(value, 0) {
                     let since_epoch: f64 = time.into();
                     let seconds = since_epoch.floor() as i64;
-                    let nsecs = ((since_epoch - (seconds as f64)) * 1e9) as u32;
+                    let nsecs = (((since_epoch - (seconds as f64)) * 1e9) as u32).min(999_999_999);
                     if let Some(datetime) = Utc.timestamp_opt(seconds, nsecs).single() {
                         if let Some(JsonValue::String(format)) = self.0.apply(value, 1) {
                             let mut formatted = String::new();
